@@ -3,7 +3,7 @@
    address.  Every statement is for EVERY reply script ([run_script], model/Controller.v: the
    i-th message of the trace is answered by the i-th reply of the script). *)
 From Flipdot Require Import Tactics.
-From Flipdot Require Import Base Message Page SignType VSign Controller ProtoSpec ControllerP.
+From Flipdot Require Import Base Message Page SignType VSign Controller ProtoSpec ControllerP SourceP.
 Local Open Scope N_scope.
 
 (* --- examples --- *)
@@ -119,3 +119,35 @@ Theorem C11_foreign_blind_transfer : forall a op items su fa s1 s2,
   run_script (transfer a op items su fa) s1 = run_script (transfer a op items su fa) s2.
 Proof. exact C11_foreign_blind_transfer_lemma. Qed.
 Print Assumptions C11_foreign_blind_transfer.
+
+(* --- page sources that talk on the bus (model: catch, prelude, send_pages_with) --- *)
+(* A call made from inside the page iterator says on the bus exactly what it would say alone; that it failed with the
+   protocol error is dropped, everything else (bus failure, panic, an exhausted script) ends the outer call as well. *)
+Theorem C11_nested_call : forall c script,
+  run_script (catch (cop_prog c)) script
+  = (fst (run_script (cop_prog c) script), SourceP.caught (snd (run_script (cop_prog c) script)))
+  /\ snd (run_script (catch (cop_prog c)) script) <> ProtoErr.
+Proof. intros c script. split; [apply SourceP.run_script_catch | apply SourceP.catch_never_fails]. Qed.
+Print Assumptions C11_nested_call.
+
+(* Bounded retries whatever the source does: a transfer over a talking source is at most three attempts, one after the
+   other, each the attempt program run on what the earlier ones left of the script. *)
+Theorem C11_bounded_attempts_with_source : forall a op items s f script,
+  exists ts : list (list msg),
+    fst (run_script (transfer_loop_with 2 a op items s f) script) = concat ts
+    /\ (1 <= length ts <= 3)%nat
+    /\ Forall (fun t => exists k, t = fst (run_script (attempt_with a op items) (skipn k script))) ts.
+Proof. intros. apply SourceP.transfer_with_attempts. Qed.
+Print Assumptions C11_bounded_attempts_with_source.
+
+(* Fail-stop holds of every program, hence of send_pages over any source. *)
+Theorem C11_fail_stop_with_source : forall a items script tr o,
+  run_script (send_pages_with a items) script = (tr, o) -> o <> Blocked ->
+  (length tr <= length script)%nat
+  /\ (In BusErr (firstn (length tr) script) -> o = BusFailed)
+  /\ (o = BusFailed -> nth_error script (length tr - 1) = Some BusErr).
+Proof.
+  intros a items script tr o H Hb. destruct (fail_stop_gen _ _ _ _ H Hb) as (H1 & _ & H3 & H4).
+  split; [exact H1|]. split; [exact H3|exact H4].
+Qed.
+Print Assumptions C11_fail_stop_with_source.
